@@ -90,7 +90,7 @@ def process_lf(
         )  # (n_samples, max_instances, num_nodes, 2)
 
     ex = {
-        "image": torch.from_numpy(image),
+        "image": torch.from_numpy(np.ascontiguousarray(image)),
         "instances": instances,
         "video_idx": torch.tensor(video_idx, dtype=torch.int32),
         "frame_idx": torch.tensor(lf.frame_idx, dtype=torch.int32),
@@ -191,7 +191,7 @@ class LabelsReaderDP(IterDataPipe):
             instances = torch.from_numpy(instances.astype("float32"))
             num_instances, nodes = instances.shape[1:3]
             ex = {
-                "image": torch.from_numpy(image),
+                "image": torch.from_numpy(np.ascontiguousarray(image)),
                 "video_idx": torch.tensor(
                     self.labels.videos.index(lf.video), dtype=torch.int32
                 ),
@@ -275,7 +275,7 @@ class VideoReader(Thread):
 
                 self.frame_buffer.put(
                     {
-                        "image": torch.from_numpy(img),
+                        "image": torch.from_numpy(np.ascontiguousarray(img)),
                         "frame_idx": torch.tensor(idx, dtype=torch.int32),
                         "video_idx": torch.tensor(0, dtype=torch.int32),
                         "orig_size": torch.Tensor(img.shape[-2:]),
@@ -350,7 +350,7 @@ class LabelsReader(Thread):
                 img = np.expand_dims(img, axis=0)  # (1, C, H, W)
 
                 sample = {
-                    "image": torch.from_numpy(img),
+                    "image": torch.from_numpy(np.ascontiguousarray(img)),
                     "frame_idx": torch.tensor(lf.frame_idx, dtype=torch.int32),
                     "video_idx": torch.tensor(
                         self.labels.videos.index(lf.video), dtype=torch.int32
